@@ -203,7 +203,7 @@ fn replay_doc(sc: &Scenario, cfg: &ExploreCfg, tr: &Transition) -> Value {
         "attach_at": tr.attach, "calls": tr.path,
         "observed": {"result": format!("{:?}", tr.result), "returned_words": tr.returned.as_ref().map(words), "cache_before_words": words(&tr.before.rec), "cached_generation_before": tr.before.gen,
                      "generations_seen": tr.stats.gens_seen, "loads": tr.stats.loads, "record_copies": tr.stats.data_reads},
-        "legend": "calls[i] = choice taken at each choice point of the i-th snapshot() call; RA: choice c reads the c-th newest message the view allows (0 = latest, >0 = a stale read); SC: choice c advances the writer to the c-th next position (0 = not at all)"
+        "legend": "calls[0] = choices taken inside ShmReader::new (normally none); calls[i>0] = choice taken at each choice point of the i-th snapshot() call; RA: choice c reads the c-th newest message the view allows (0 = latest, >0 = a stale read); SC: choice c advances the writer to the c-th next position (0 = not at all)"
     })
 }
 
@@ -218,7 +218,8 @@ enum Prop {
 /// Oracles on one transition. `multi` marks crash/restart traces (C04).
 fn judge(prop: Prop, w: &Work, cfg: &ExploreCfg, tr: &Transition, agg: &mut Agg) {
     let published = w.trace.published_at(cfg.end);
-    let devs = tr.path.last().map(|c| c.iter().filter(|x| **x > 0).count() as u32).unwrap_or(0) + (tr.path.len() as u32 - 1) * 100;
+    // path = [choices during ShmReader::new, call 1, call 2, ...]: fewest calls first, then fewest stale reads
+    let devs = tr.path.last().map(|c| c.iter().filter(|x| **x > 0).count() as u32).unwrap_or(0) + (tr.path.len() as u32).saturating_sub(2) * 100;
     let m = mode_name(cfg.mode);
     let key = match (&tr.result, &tr.returned) {
         (CallResult::Ok, Some(r)) => match idx_of(&published, r) {
@@ -392,7 +393,7 @@ fn run_plan(ctx: &Ctx, prop: Prop, plan: &Plan, deadline: f64, agg: &mut Agg) {
 /// Confirm a violation by re-executing it twice from its replay document.
 fn confirm(ctx: &Ctx, v: &Violation) -> Result<(), String> {
     let doc = &v.replay;
-    if doc["calls"].as_array().map(|a| a.is_empty()).unwrap_or(true) {
+    if doc["calls"].as_array().map(|a| a.len() < 2).unwrap_or(true) {
         return Ok(());
     }
     let a = replay_doc_run(ctx, doc)?;
@@ -702,7 +703,30 @@ fn directed_continuous_writer(ctx: &Ctx, agg: &mut Agg) -> Value {
     if worst > 10.0 {
         agg.add("C18:continuous-writer-starves-reader".into(), 0, format!("a snapshot() call took {worst:.1} s against a continuously updating writer"), json!({"engine": "seqmc", "directed": "continuous writer", "calls": []}));
     }
-    json!({"kind": "directed (free-running threads, not exhaustive)", "reader_calls": calls, "reader_errors": errs, "writer_updates": updates, "longest_call_s": worst})
+    // adversarial schedule (one schedule, deterministic): the writer completes one update between every
+    // record copy of the reader and its re-check. A bounded reader gives up by itself; if the call only
+    // returns once the adversary stops updating, its termination depends on the daemon pausing.
+    let path2 = dir.join("adv");
+    let _ = std::fs::remove_file(&path2);
+    let mut w2 = ShmWriter::new(&path2).expect("writer");
+    w2.write(&tagged(1).to_ceb());
+    let cpath2 = std::ffi::CString::new(path2.to_str().unwrap()).unwrap();
+    let mut r2 = ShmReader::new(&cpath2).expect("reader");
+    let max_updates: u64 = 3_000_000;
+    ADVERSARY.with(|a| *a.borrow_mut() = Some(Adversary { writer: w2, updates: 0, max_updates, copies: 0 }));
+    let t1 = raw_now_s();
+    let res = r2.snapshot().map(|_| ()).map_err(|e| format!("{e:?}"));
+    let adv = ADVERSARY.with(|a| a.borrow_mut().take()).expect("adversary");
+    let adv_wall = raw_now_s() - t1;
+    if adv.updates >= max_updates {
+        agg.add("C18:unbounded-under-continuous-updates".into(), 0, format!("with the writer completing one update between every record copy and re-check, snapshot() was still retrying after {} copies and only returned ({res:?}) once the writer stopped updating", adv.copies), json!({"engine": "seqmc", "directed": "adversarial continuous writer", "calls": []}));
+    }
+    let made = adv.updates;
+    let copies = adv.copies;
+    drop(adv);
+    close_leaked_fds(&path2);
+    json!({"free_running": {"kind": "directed (free-running threads, not exhaustive)", "reader_calls": calls, "reader_errors": errs, "writer_updates": updates, "longest_call_s": worst},
+           "adversarial": {"kind": "directed (one deterministic schedule: an update between every copy and re-check)", "updates_the_adversary_was_prepared_to_make": max_updates, "updates_made": made, "record_copies_in_the_call": copies, "result": format!("{res:?}"), "wall_s": adv_wall}})
 }
 
 // ---------------------------------------------------------------------------------------------
@@ -712,6 +736,15 @@ fn c11_oracles(w: &Work, agg: &mut Agg, succ: &mut Vec<(u16, bool, u16, bool)>) 
     let t = &w.trace;
     let doc = || json!({"engine": "seqmc-writer", "scenario": w.sc.json(), "calls": []});
     let mut published = matches!(w.sc.init, Init::Valid(_));
+    // once the segment has been published to, generation 0 must never be visible again - at any
+    // position, including the start-up of a restarted writer (not only inside write() calls)
+    for p in 1..=t.len() {
+        let was_published = matches!(w.sc.init, Init::Valid(_)) || t.spans.iter().any(|s| s.end.map(|e| e < p).unwrap_or(false));
+        if was_published && t.gen_at(p).unwrap_or(0) == 0 {
+            agg.add("C11:generation-zero".into(), 0, format!("after the segment had been published to, generation 0 (or no generation field at all) is visible at trace position {p} (event {:?}, incarnation {})", t.events[p as usize - 1].kind, t.events[p as usize - 1].inc), doc());
+            break;
+        }
+    }
     for sp in &t.spans {
         let g0 = t.gen_at(sp.begin).unwrap_or(0);
         // every position strictly inside the update: generation odd
